@@ -21,8 +21,10 @@ from .astutil import walk_own, U
 def _assigned_names(node):
     out = set()
     for n in walk_own(node):
-        if isinstance(n, ast.FunctionDef) and n is not node:
-            out.add(n.name)
+        # walk_own does not yield nested definitions: their NAMES are bound in this scope all the same
+        for c in ast.iter_child_nodes(n):
+            if isinstance(c, (ast.FunctionDef, ast.AsyncFunctionDef, ast.ClassDef)) and c is not node:
+                out.add(c.name)
         tg = []
         if isinstance(n, ast.Assign):
             tg = n.targets
@@ -42,7 +44,10 @@ def _assigned_names(node):
 
 
 def _used_names(node):
-    return {x.id for x in ast.walk(node) if isinstance(x, ast.Name)}
+    """every identifier the node mentions or binds in its own scope: names, and the names of nested function / class definitions"""
+    out = {x.id for x in ast.walk(node) if isinstance(x, ast.Name)}
+    out |= {x.name for x in ast.walk(node) if isinstance(x, (ast.FunctionDef, ast.AsyncFunctionDef, ast.ClassDef))}
+    return out
 
 
 def _has_return_in_loop(stmts):
@@ -480,6 +485,13 @@ _NONNULL_CALLS = ("np.array", "np.asarray", "np.zeros", "np.ones", "np.empty", "
 def _nonnull_expr(e):
     if isinstance(e, ast.Call):
         return U(e.func) in _NONNULL_CALLS
+    # the result of an arithmetic / bitwise / comparison operator on arrays or numbers is never None (None operands raise)
+    if isinstance(e, ast.UnaryOp) and isinstance(e.op, (ast.Invert, ast.USub, ast.UAdd)):
+        return True
+    if isinstance(e, ast.UnaryOp) and isinstance(e.op, ast.Not):
+        return True
+    if isinstance(e, (ast.BinOp, ast.Compare)):
+        return True
     if isinstance(e, (ast.List, ast.Tuple, ast.Dict, ast.Set, ast.ListComp, ast.DictComp, ast.SetComp, ast.JoinedStr)):
         return True
     return isinstance(e, ast.Constant) and e.value is not None
